@@ -294,7 +294,10 @@ fn cmd_replay(path: &str) -> i32 {
             let _ = std::panic::catch_unwind(std::panic::AssertUnwindSafe(|| execute(psc, p, &env)));
         }
     }
+    // a replay that kills the process reproduces a process-abort finding: the fatal-signal handler says so
+    kernel::rec::set_inflight(Some((rf.plan.property.clone(), path.to_string(), s.clone())));
     let rec = execute(sc, &rf.plan, &env);
+    kernel::rec::set_inflight(None);
     let hit = rec.violations.iter().find(|v| v.property == rf.expect.property && v.invariant == rf.expect.invariant);
     match hit {
         Some(v) => {
@@ -388,6 +391,7 @@ static ALLOC: TickAlloc = TickAlloc;
 
 fn main() {
     install_panic_hook();
+    kernel::rec::install_fatal_handler();
     let _ = std::collections::hash_map::RandomState::new();
     let args: Vec<String> = std::env::args().collect();
     let tier_of = |s: &str| if s == "thorough" { Tier::Thorough } else { Tier::Quick };
